@@ -269,7 +269,8 @@ fn el_key(kind: IssueKindSpec, el: Element, pkt: u8) -> IssueKey {
 }
 
 fn issue_for(kind: IssueKindSpec, el: Element, pkt: u8) -> Issue {
-    let pktb = vec![0x07, pkt];
+    // the dedup id of an SCMP issue covers the LENGTH of the offending packet only
+    let pktb = vec![0x07; 2 + pkt as usize];
     match el {
         Element::Egress { isd, asn, ifid } => Issue::from_scmp(ScmpExternalInterfaceDown::new(ia((isd, asn)), ifid, pktb).into()),
         Element::Cross { isd, asn, ing, eg } => Issue::from_scmp(ScmpInternalConnectivityDown::new(ia((isd, asn)), ing, eg, pktb).into()),
@@ -649,6 +650,10 @@ impl<'a> Run<'a> {
 }
 
 fn check(case: &Case, obs: &mut Obs) -> CheckResult {
+    p_stack::dev_filter(check_inner(case, obs))
+}
+
+fn check_inner(case: &Case, obs: &mut Obs) -> CheckResult {
     let cfg = cfg_of(case);
     let strategy = scion_stack::path::PathStrategy::default();
     let t0 = world::at(0);
@@ -805,7 +810,7 @@ fn case_strategy(max_steps: usize) -> impl Strategy<Value = Case> {
 }
 
 fn run_random(ctx: &Ctx) {
-    let n = ctx.tier.pick(3_000, 300_000);
+    let n = ctx.tier.pick(16_000, 1_000_000);
     let max = ctx.tier.pick(24, 50);
     ctx.run_prop("histories-random", n, || case_strategy(max), check);
 }
@@ -868,8 +873,8 @@ fn post(ctx: &Ctx) {
 
 fn main() {
     let subs = [
-        Sub { name: "histories-random", run: run_random, replay: |c, v| c.replay_case::<Case>("histories-random", v, check) },
-        Sub { name: "failover-matrix", run: run_matrix, replay: |c, v| c.replay_case::<Case>("failover-matrix", v, check) },
+        Sub { name: "histories-random", run: run_random, replay: |c, v| c.replay_case::<Case>("histories-random", v, |k, o| p_stack::replay_repeated(k, o, check)) },
+        Sub { name: "failover-matrix", run: run_matrix, replay: |c, v| c.replay_case::<Case>("failover-matrix", v, |k, o| p_stack::replay_repeated(k, o, check)) },
     ];
     vcore::main(
         "C07",
